@@ -16,7 +16,7 @@ from pyproj import CRS
 dask.config.set(scheduler="synchronous")
 
 from pyresample import _caching
-from pyresample.future.resamplers.resampler import Resampler, hash_resampler_geometries
+from pyresample.future.resamplers.resampler import Resampler, hash_dict, hash_resampler_geometries
 from pyresample.geometry import AreaDefinition, StackedAreaDefinition, SwathDefinition
 from pyresample.resampler import BaseResampler, _create_dask_name, crop_source_area
 
@@ -271,6 +271,9 @@ for s1, t1, k1, s2, t2, k2 in req.get("keys", []):
             "future": _Future(a1, b1)._get_hash(**dict(kwargs[k1])) == _Future(a2, b2)._get_hash(**dict(kwargs[k2])),
             "func": hash_resampler_geometries(a1, b1, **kwargs[k1]) == hash_resampler_geometries(a2, b2, **kwargs[k2]),
             "geo": digest(a1) == digest(a2) and digest(b1) == digest(b2),
+            "hash_dict": hash_dict(dict(kwargs[k1])).hexdigest() == hash_dict(dict(kwargs[k2])).hexdigest(),
+            "cache_filename": (BaseResampler(a1, b1)._create_cache_filename(cache_dir="c", prefix="p", **kwargs[k1]) ==
+                               BaseResampler(a2, b2)._create_cache_filename(cache_dir="c", prefix="p", **kwargs[k2])),
         })
     except Exception as e:
         out["keys"].append(err(e))
